@@ -331,6 +331,28 @@ func genC19(r *rand.Rand, tier, id string) Case {
 	return c
 }
 
+// C20o: the branch bookkeeping of the tree database against V2Orphans.v: one tree object from
+// the first write to the end (no reopen: a reloaded tree hands out its sequence numbers afresh),
+// removals of absent keys, deletions that are waited for, the raw orphan / branch / root rows
+// after every commit and every deletion.
+func genC20o(r *rand.Rand, tier, id string) Case {
+	g := newKeyGen(r, poolSize(r, tier))
+	h := &histGen{r: r, g: g, empty: r.Intn(4) != 0, present: map[string]bool{}}
+	nv := 5 + r.Intn(10)
+	if tier == "thorough" {
+		nv = 8 + r.Intn(24)
+	}
+	c := Case{ID: id, Kind: "m1", Params: []string{"iv=-"}}
+	for v := int64(1); v <= int64(nv); v++ {
+		c.Ops = append(c.Ops, h.version()...)
+		c.Ops = append(c.Ops, []string{"save"}, []string{"x", "oraw"})
+		if v >= 3 && r.Intn(4) == 0 {
+			c.Ops = append(c.Ops, []string{"x", "prune", i64(1 + r.Int63n(v))}, []string{"x", "oraw"})
+		}
+	}
+	return c
+}
+
 // C20: close / reopen / load of retained versions, continuation, pruning, snapshots.
 func genC20(r *rand.Rand, tier, id string) Case {
 	g := newKeyGen(r, poolSize(r, tier))
@@ -465,4 +487,5 @@ func genC20(r *rand.Rand, tier, id string) Case {
 var generators = map[string]func(r *rand.Rand, tier, id string) Case{
 	"C19": genC19,
 	"C20": genC20,
+	"C20o": genC20o,
 }
